@@ -204,14 +204,8 @@ fn bracket_matches(neg: bool, items: &[BrItem], c: char, nocase: bool) -> bool {
                         (*lo <= l && l <= *hi) || (*lo <= u && u <= *hi)
                     })
             }
-            BrItem::Class(n) => {
-                let b = class_matches(n, c).unwrap_or(false);
-                if nocase && (n == "upper" || n == "lower") {
-                    b || c.is_ascii_alphabetic()
-                } else {
-                    b
-                }
-            }
+            // bash does not fold character classes under nocasematch/nocaseglob
+            BrItem::Class(n) => class_matches(n, c).unwrap_or(false),
         };
         if m {
             hit = true;
